@@ -89,7 +89,7 @@ func Normalize(dict map[string]any, env types.Mapping) (map[string]any, error) {
 
 			for _, namespace := range []string{"network_mode", "ipc", "pid", "uts", "cgroup"} {
 				if n, ok := service[namespace]; ok {
-					ref := n.(string)
+					ref, _ := n.(string) // `pid:` without a value is valid and decodes to nil
 					if strings.HasPrefix(ref, types.ServicePrefix) {
 						shared := ref[len(types.ServicePrefix):]
 						if _, ok := dependsOn[shared]; !ok {
